@@ -548,12 +548,70 @@ def reserved_converters(index: RepoIndex) -> Dict[str, ast.AST]:
             for kk, vv in zip(tb[0].keys, tb[0].values):
                 if not (isinstance(kk, ast.Constant) and isinstance(kk.value, str)):
                     continue
-                if isinstance(vv, ast.Lambda) and len(vv.args.args) == 1:
-                    body = inline_new(index, f, vv.body)
-                    out[kk.value] = Sub(vv.args.args[0].arg).visit(copy.deepcopy(body))
-                elif isinstance(vv, ast.Name):
-                    out[kk.value] = ast.Call(vv, [copy.deepcopy(V)], [])
+                ce = _converter_expr(index, f, vv, V)
+                if ce is not None:
+                    out[kk.value] = ce
+    # table form with a sequence of (key, converter) pairs: `for key, conv in TABLE:`
+    for e in w.events:
+        if e.kind == 'store' and isinstance(e.target, ast.Subscript) and \
+                src(e.target.value) == dp and len(e.loops) == 1 and \
+                isinstance(e.loops[0][0], ast.Tuple) and len(e.loops[0][0].elts) == 2 and \
+                isinstance(e.loops[0][1], ast.Name):
+            kv, cv = (src(t) for t in e.loops[0][0].elts)
+            if src(e.target.slice) != kv or src(e.value) != f'{cv}({dp}[{kv}])':
+                continue
+            tb = f.module.assigns.get(e.loops[0][1].id, [])
+            if len(tb) != 1 or not isinstance(tb[0], (ast.Tuple, ast.List)):
+                continue
+            for pair in tb[0].elts:
+                if isinstance(pair, ast.Tuple) and len(pair.elts) == 2 and \
+                        isinstance(pair.elts[0], ast.Constant) and \
+                        isinstance(pair.elts[0].value, str):
+                    ce = _converter_expr(index, f, pair.elts[1], V)
+                    if ce is not None:
+                        out[pair.elts[0].value] = ce
     return out
+
+
+def _converter_expr(index: RepoIndex, f: Func, conv: ast.AST, V: ast.AST) -> Optional[ast.AST]:
+    """the expression `conv(V)` denotes: a one-parameter lambda applied, a function name
+    called, or a module-level helper that returns a nested one-expression function (a
+    closure over its argument: `_factory_list(factory)` -> `[factory(d) for d in data]`), with
+    lambdas applied to their arguments (beta-reduced)"""
+    from ..inline import _SubstNames, pure_body_expr
+
+    def beta(e: ast.AST) -> ast.AST:
+        class B(ast.NodeTransformer):
+            def visit_Call(self, n: ast.Call):
+                self.generic_visit(n)
+                if isinstance(n.func, ast.Lambda) and not n.keywords and \
+                        len(n.func.args.args) == len(n.args):
+                    mp = dict(zip([a.arg for a in n.func.args.args], n.args))
+                    return _SubstNames(mp).visit(copy.deepcopy(n.func.body))
+                return n
+        return B().visit(copy.deepcopy(e))
+    if isinstance(conv, ast.Lambda) and len(conv.args.args) == 1:
+        body = inline_new(index, f, conv.body)
+        return _SubstNames({conv.args.args[0].arg: V}).visit(copy.deepcopy(body))
+    if isinstance(conv, (ast.Name, ast.Attribute)):
+        return ast.Call(conv, [copy.deepcopy(V)], [])
+    if isinstance(conv, ast.Call) and isinstance(conv.func, ast.Name) and not conv.keywords:
+        h = f.module.functions.get(conv.func.id)
+        if h is None:
+            return None
+        body = [s_ for s_ in h.node.body if not (isinstance(s_, ast.Expr)
+                                                 and isinstance(s_.value, ast.Constant))]
+        ps = [a.arg for a in h.node.args.args]
+        if len(body) == 2 and isinstance(body[0], ast.FunctionDef) and \
+                isinstance(body[1], ast.Return) and src(body[1].value) == body[0].name and \
+                len(ps) == len(conv.args) and len(body[0].args.args) == 1:
+            inner = pure_body_expr(body[0])
+            if inner is None:
+                return None
+            mp = dict(zip(ps, conv.args))
+            mp[body[0].args.args[0].arg] = V
+            return beta(_SubstNames(mp).visit(copy.deepcopy(inner)))
+    return None
 
 
 def inline_new(index: RepoIndex, f: Func, e: ast.AST) -> ast.AST:
